@@ -290,6 +290,10 @@ partial def genSupNTree (sym : Sym) (n : Nat) : GS NTree := do
     let k ← liftG (range 1 (n - 1))
     pure (.op (← liftG (pick ops3)) (← genSupNTree sym k) (← genSupNTree sym (n - k)))
 
+partial def ntSetSfx : NTree → Option Str → NTree
+  | .one h s, sfx => .one { h with sfx := sfx } s
+  | .op o l r, sfx => .op o (ntSetSfx l sfx) (ntSetSfx r sfx)
+
 /-- supported statements with nesting (C02) -/
 def genSupC02 (depth : Nat) : G Stmt := do
   let g : GS Stmt := do
@@ -316,7 +320,14 @@ def genSupC02 (depth : Nat) : G Stmt := do
           parts := parts ++ [.nested { sym := sym, anno := anno.map String.toList, sfx := sfx.map String.toList } inner]
         else
           let n ← liftG (range 2 4)
-          parts := parts ++ [.ncomb { sym := sym } (← genSupNTree sym n)]
+          -- every third combination carries a suffix (and sometimes an annotation) on the
+          -- nesting component and on its operands; the suffix matches no component
+          let withSfx ← liftG (chance 1 3)
+          let sfx : Option Str := if withSfx then some (toString (7 + parts.length)).toList else none
+          let anno ← liftG (pick [none, none, some "kind=combo"])
+          let t ← genSupNTree sym n
+          let t := if withSfx then ntSetSfx t sfx else t
+          parts := parts ++ [.ncomb { sym := sym, sfx := sfx, anno := if withSfx then anno.map String.toList else none } t]
       let sh ← liftG (shuffle parts)
       pure (.mk sh)
   let (s, _) ← g.run 0
